@@ -31,6 +31,11 @@ pub struct Case {
     /// event at another locus: two distinct indels that must both be reported)
     #[serde(default)]
     pub twin: bool,
+    /// a single indel of a sequence equal to its own reverse complement (a restriction site, AT, ...) between
+    /// inverted flanks W .. rc(W), |W| >= k-1: (site selector, extra flank length). Every (k-1)-mer still
+    /// occurs once in the sequence as written; only the two strands of the locus read alike
+    #[serde(default)]
+    pub hairpin: Option<(u8, u8)>,
 }
 
 fn case_strategy() -> BoxedStrategy<Case> {
@@ -45,8 +50,9 @@ fn case_strategy() -> BoxedStrategy<Case> {
         prop::sample::select(vec![1u8, 1, 2, 3, 4]),
         prop_oneof![2 => Just(None), 1 => (any::<u16>(), any::<u16>()).prop_map(Some)],
         prop::bool::weighted(0.3),
+        prop_oneof![6 => Just(None), 1 => (any::<u8>(), any::<u8>()).prop_map(Some)],
     )
-        .prop_map(|(k, n_samples, material, lead, tail, indels, orient, threads, trunc, twin)| Case { k, n_samples, material, lead, tail, indels, orient, threads, trunc, twin })
+        .prop_map(|(k, n_samples, material, lead, tail, indels, orient, threads, trunc, twin, hairpin)| Case { k, n_samples, material, lead, tail, indels, orient, threads, trunc, twin, hairpin })
         .boxed()
 }
 
@@ -60,7 +66,113 @@ pub struct Mat {
     pub trunc: Option<(usize, usize)>,
 }
 
+const SELF_RC_SITES: [&[u8]; 14] = [b"AT", b"GC", b"TA", b"CG", b"ACGT", b"TGCA", b"GATC", b"CATG", b"GAATTC", b"GGATCC", b"AAGCTT", b"GTCGAC", b"ACGCGT", b"AGATCT"];
+
+/// L . W . site . rc(W) . R with one indel (the site): see `Case::hairpin`
+fn materialise_hairpin(c: &Case, site_sel: u8, extra: u8) -> Result<Mat, String> {
+    let k = c.k;
+    let w = k - 1;
+    let site = SELF_RC_SITES[site_sel as usize % SELF_RC_SITES.len()];
+    let wl = w + extra as usize % 5;
+    let ll = 2 * k + gen::idx(c.lead, k / 2 + 1);
+    let rl = 2 * k + gen::idx(c.tail, 2 * k);
+    let mut seen = std::collections::HashSet::new();
+    let mut anc = gen::unique_seq(&c.material, ll + wl, w, false, &mut seen).ok_or("no unique extension")?;
+    let arm = anc[ll..].to_vec();
+    anc.extend_from_slice(site);
+    anc.extend(model::revcomp(&arm));
+    let (pa, pb) = (ll, anc.len());
+    // windows inside the symmetric part are their mirror image's reverse complement; everything else stays unique
+    for i in (ll + wl + 1).saturating_sub(w)..=(anc.len() - w) {
+        seen.insert(gen::word_key(&anc[i..i + w], false).0);
+    }
+    for i in 0..rl {
+        let m = c.material[(i * 7 + 3) % c.material.len()] as usize & 3;
+        let mut placed = false;
+        for t in 0..4 {
+            anc.push(model::BASES[(m + t) % 4]);
+            let (key, self_rc) = gen::word_key(&anc[anc.len() - w..], false);
+            if self_rc || seen.contains(&key) {
+                anc.pop();
+                continue;
+            }
+            seen.insert(key);
+            placed = true;
+            break;
+        }
+        if !placed {
+            return Err("no unique extension".into());
+        }
+    }
+    let (p, ln) = (ll + wl, site.len());
+    let carr = &c.indels[0].2;
+    let mut cs: Vec<bool> = (0..c.n_samples).map(|j| carr[j % carr.len()]).collect();
+    if cs.iter().all(|x| *x) {
+        cs[0] = false;
+    }
+    if cs.iter().all(|x| !*x) {
+        cs[1 % c.n_samples] = true;
+    }
+    let mut fwd = Vec::new();
+    let mut items: Vec<(Vec<u8>, Vec<(usize, usize)>)> = Vec::new();
+    for j in 0..c.n_samples {
+        let mut sq = anc.clone();
+        let mut coord: Vec<usize> = (0..anc.len()).collect();
+        if cs[j] {
+            sq.drain(p..p + ln);
+            coord.drain(p..p + ln);
+        }
+        // origin of a window: its first and last ancestor coordinate, mirrored to the left half inside the symmetric part
+        let origins = (0..=(sq.len() - w))
+            .map(|i| {
+                let (a, b) = (coord[i], coord[i + w - 1]);
+                if a >= pa && b < pb { std::cmp::min((a, b), (pa + pb - 1 - b, pa + pb - 1 - a)) } else { (a, b) }
+            })
+            .collect();
+        items.push((sq.clone(), origins));
+        fwd.push(sq);
+    }
+    let mut map: std::collections::HashMap<Vec<u8>, (usize, usize)> = std::collections::HashMap::new();
+    for (seq, origins) in &items {
+        for i in 0..=(seq.len() - w) {
+            let (key, self_rc) = gen::word_key(&seq[i..i + w], false);
+            let (a, b) = origins[i];
+            if self_rc && !(a >= pa && b < pb) {
+                return Err("a (k-1)-mer outside the symmetric locus is its own reverse complement".into());
+            }
+            match map.get(&key) {
+                Some((a1, b1)) => {
+                    if *a1 != a && *b1 != b {
+                        return Err("(k-1)-mers not unique over the union of the derived samples".into());
+                    }
+                }
+                None => {
+                    map.insert(key, (a, b));
+                }
+            }
+        }
+    }
+    // as written, every (k-1)-mer occurs once per sample
+    for sq in &fwd {
+        let mut set = std::collections::HashSet::new();
+        for i in 0..=(sq.len() - w) {
+            if !set.insert(&sq[i..i + w]) {
+                return Err("a (k-1)-mer occurs twice in the sequence as written".into());
+            }
+        }
+    }
+    let samples = fwd
+        .iter()
+        .enumerate()
+        .map(|(j, sq)| (format!("{}{j}", ["m", "c", "x", "a", "t", "g", "p", "e", "z", "k"][j % 10]), vec![if c.orient[j % c.orient.len()] { model::revcomp(sq) } else { sq.clone() }]))
+        .collect();
+    Ok(Mat { ancestor: anc, indels: vec![(p, ln, cs)], fwd, samples, trunc: None })
+}
+
 pub fn materialise(c: &Case) -> Result<Mat, String> {
+    if let Some((site_sel, extra)) = c.hairpin {
+        return materialise_hairpin(c, site_sel, extra);
+    }
     let k = c.k;
     let mut planned: Vec<(usize, usize, Vec<bool>)> = Vec::new();
     let mut p = 2 * k + gen::idx(c.lead, k / 2 + 1);
@@ -196,6 +308,9 @@ fn strata_of(c: &Case, m: &Mat, i: usize) -> Vec<&'static str> {
     let (p, ln, cs) = &m.indels[i];
     let a = &m.ancestor;
     let mut v = vec!["all"];
+    if c.hairpin.is_some() {
+        v.push("self_complementary_indel_between_inverted_flanks");
+    }
     if c.twin && m.indels.len() >= 2 && i < 2 {
         v.push("twin(same_sequence_and_carriers_at_two_loci)");
     }
@@ -364,7 +479,8 @@ fn check(c: &Case, ctx: &Ctx) -> Outcome {
             if planted >= 2 { cl.push(">=2_indels"); }
             if c.threads > 1 { cl.push("threads>1"); }
             if m.trunc.is_some() { cl.push("sample_missing_at_an_indel"); }
-            if c.twin && planted >= 2 { cl.push("twin_indels(same_sequence_same_carriers_two_loci)"); }
+            if c.twin && planted >= 2 && c.hairpin.is_none() { cl.push("twin_indels(same_sequence_same_carriers_two_loci)"); }
+            if c.hairpin.is_some() { cl.push("self_complementary_indel_between_inverted_flanks"); }
             pass(found > 0, key_of(&(k, &m.fwd, c.threads)), cl)
         }
     }
@@ -406,7 +522,7 @@ fn post(rt: &mut Runtime) {
     }
 }
 
-const RULE: &str = "generated: ancestor (all insertions present) with unique (k-1)-mers on both strands, 1-3 indels of length 1..min(10,k-1) at least 4k apart and 2k from the ends, carrier sets non-empty and proper over 3-8 samples, in 30% of the multi-indel cases the second indel removes the same sequence from the same carriers as the first (two loci, two records expected), the union of all derived samples re-checked: a (k-1)-mer may recur only at the same ancestor coordinates (rejections counted), samples randomly reverse-complemented, k in {11,15,21,31}, threads 1-4; in a third of the cases one of >= 4 samples is truncated >= 2k before an indel (neither form present: must be genotyped '.', run with -m 0.4). Oracle per record: before+REF+after (or its reverse complement) occurs in exactly the samples genotyped 0, before+ALT+after in exactly those genotyped 1, '.' iff neither or both; the record matches one planted indel by length and carriers, none twice, none unmatched; aggregate recall >= 90% (checked when >= 200 planted), also within each stratum of >= 150 planted indels (twin pairs, junction homology >= indel length, no junction homology, carried by exactly half of the samples, singleton carrier, length classes). Non-trivial: >= 1 indel reported.";
+const RULE: &str = "generated: ancestor (all insertions present) with unique (k-1)-mers on both strands, 1-3 indels of length 1..min(10,k-1) at least 4k apart and 2k from the ends, carrier sets non-empty and proper over 3-8 samples, in 30% of the multi-indel cases the second indel removes the same sequence from the same carriers as the first (two loci, two records expected), in a seventh of the cases a single indel of a sequence equal to its own reverse complement (AT, GATC, GAATTC, ...) between inverted flanks W..rc(W) with |W| >= k-1 (every (k-1)-mer still occurs once in each sequence as written; the two strands of that locus read alike), the union of all derived samples re-checked: a (k-1)-mer may recur only at the same ancestor coordinates (rejections counted), samples randomly reverse-complemented, k in {11,15,21,31}, threads 1-4; in a third of the cases one of >= 4 samples is truncated >= 2k before an indel (neither form present: must be genotyped '.', run with -m 0.4). Oracle per record: before+REF+after (or its reverse complement) occurs in exactly the samples genotyped 0, before+ALT+after in exactly those genotyped 1, '.' iff neither or both; the record matches one planted indel by length and carriers, none twice, none unmatched; aggregate recall >= 90% (checked when >= 200 planted), also within each stratum of >= 150 planted indels (twin pairs, self-complementary indels between inverted flanks, junction homology >= indel length, no junction homology, carried by exactly half of the samples, singleton carrier, length classes). Non-trivial: >= 1 indel reported.";
 
 fn stages(tier: Tier) -> Vec<Box<dyn Stage>> {
     vec![gen_stage_show("indels", RULE, tier.pick(1600, 20_000), 150, case_strategy, check, |c| match materialise(c) {
